@@ -321,6 +321,13 @@ class Ctx(object):
     # -- proof side
     def check_proofs(self, prop_modules, extra_targets=()):
         """build the Lean project (model, generated tables, the property's theorems), audit axioms"""
+        # tie no. 1: the tables of the source are re-translated to Lean before anything is built
+        try:
+            from . import translate
+            changed = translate.write(translate.generate())
+            self.notes["generated_tables_rewritten"] = changed
+        except Exception as e:      # a source change the translator cannot read is a broken obligation, not a crash
+            self.broken.append(("translate", "%s: %s" % (type(e).__name__, e)))
         hits = forbidden_tokens()
         for h in hits:
             self.broken.append(("forbidden construct", h))
